@@ -1,6 +1,6 @@
 (* Extraction of the editor model (group ed). ExtrOcamlBasic only. *)
 From Coq Require Import Extraction ExtrOcamlBasic.
-From LC Require Import Base.Lib Model.Syllable Model.Composition Model.Conversion Model.Engine Model.Editor Model.EdInst.
+From LC Require Import Base.Lib Model.Syllable Model.Composition Model.Conversion Model.Engine Model.Editor Model.EdInst Model.CapiKeys.
 Extraction Language OCaml.
 Set Extraction KeepSingleton.
 Separate Extraction
@@ -12,5 +12,8 @@ Separate Extraction
   EdInst.ml_clear EdInst.ml_ack EdInst.ml_set_options EdInst.ml_set_engine EdInst.ml_set_layout EdInst.ml_clear_syl
   EdInst.ml_jump_next EdInst.ml_jump_prev EdInst.ml_jump_first EdInst.ml_jump_last EdInst.ml_learn EdInst.ml_unlearn
   EdInst.ml_candidates EdInst.ml_total_page EdInst.ml_syl_read EdInst.ml_layout EdInst.ml_valid_conv EdInst.ml_engine_alts
+  CapiKeys.handle_code CapiKeys.handle_default CapiKeys.handle_ctrlnum CapiKeys.handle_numlock CapiKeys.set_kbtype
+  CapiKeys.set_selkey CapiKeys.cand_choose CapiKeys.cand_open CapiKeys.cand_close CapiKeys.commit_preedit
+  CapiKeys.clean_preedit CapiKeys.clean_bopomofo CapiKeys.reset CapiKeys.default_sel_keys
   Editor.display Editor.conversion Editor.ed_page_no Conversion.tiling_ok Conversion.display_of
   Composition.ce_len Syllable.spell.
